@@ -42,7 +42,8 @@ def _graph(case):
 
 
 def _data(case, p):
-    return [(k * 10000.0 + np.arange(p)[None, :] * 100.0 + np.arange(N)[:, None] + 0.25) for k, N in enumerate(case["Ns"])]
+    # value = environment * 10^7 + variable * 10^5 + row + 1/4 : globally unique (rows < 10^5, variables < 100)
+    return [(k * 1e7 + np.arange(p)[None, :] * 1e5 + np.arange(N)[:, None] + 0.25) for k, N in enumerate(case["Ns"])]
 
 
 def check(case):
@@ -60,7 +61,14 @@ def check(case):
     e = len(data)
     fk.reset_log()
     keepg = graph.copy()
-    net = must(lib(DRFNet, graph, data), "DRFNet(graph, data)")
+    if case.get("verbose"):
+        import contextlib
+        import io
+        with contextlib.redirect_stdout(io.StringIO()):
+            o_net = lib(DRFNet, graph, data, verbose=True)
+        net = must(o_net, "DRFNet(graph, data, verbose=True)")
+    else:
+        net = must(lib(DRFNet, graph, data), "DRFNet(graph, data)")
     ctx = "graph=%s Ns=%s" % (graph.tolist(), case["Ns"])
     # ---- fits: exactly one per (non-source node, environment), on sorted parents
     fits = {}
@@ -102,7 +110,7 @@ def check(case):
     for ci, call in enumerate(case["calls"]):
         if call.get("mutate_data"):
             for d in data:
-                d += 500000.0          # the caller changes its arrays after fitting: the network must hold copies
+                d += 5e8               # the caller changes its arrays after fitting: the network must hold copies
             lab.append("caller_mutated_data")
         if call.get("perturb") is not None:
             np.random.seed(call["perturb"])
@@ -280,11 +288,12 @@ def net_case(draw):
     calls.append(rep)
     case["calls"] = calls
     case["sub"] = "net"
+    case["verbose"] = draw(st.integers(0, 3)) == 0
     return case
 
 
 def plan(tier, seed):
-    jobs = [{"sub": "errors", "seed": seed, "cost": 2}]
+    jobs = [{"sub": "errors", "seed": seed, "cost": 2}, {"sub": "large_data", "seed": seed, "cost": 50}]
     n = scaled(1600 if tier == "quick" else 24000)
     shards = 16 if tier == "quick" else 64
     for k in range(shards):
@@ -294,6 +303,18 @@ def plan(tier, seed):
 
 def run(job):
     acc = Acc(job["sub"])
+    if job["sub"] == "large_data":
+        # one environment with 2^15 + 1 training rows and more than 1024 synthetic rows (n_new * n_train > 2^25):
+        # implementations that process predictions in batches must still pair every row with its own parents
+        case = {"sub": "net", "A": [[0, 1], [0, 0]], "dtype": "int", "Ns": [2 ** 15 + 1],
+                "calls": [{"n": 1030, "seed": job["seed"] % 1000, "perturb": None, "mutate_data": False}], "verbose": False}
+        try:
+            acc.record(case, check(case) + ["large_data"], True, by_construction=True, sample=False)
+        except Violation as v:
+            acc.record(case, [], False)
+            acc.violation(case, v)
+        acc.exhaustive = False
+        return acc
     if job["sub"] == "errors":
         for kind, exc in ERRORS:
             case = {"sub": "errors", "kind": kind, "exc": exc}
